@@ -446,9 +446,15 @@ class BasinProxyFeature(np.lib.mixins.NDArrayOperatorsMixin):
             self._cache.setflags(write=False)
         else:
             # This is dangerous territory in terms of memory usage
-            out_arr = np.empty((len(self.basinmap),) + self.feat_obj.shape[1:],
-                               dtype=dtype or self.feat_obj.dtype,
-                               *args, **kwargs)
+            if self.is_ragged:
+                # The events have different shapes (e.g. "contour"),
+                # return an array of objects.
+                out_arr = np.empty(len(self.basinmap), dtype=object)
+            else:
+                out_arr = np.empty(
+                    (len(self.basinmap),) + self.feat_obj.shape[1:],
+                    dtype=dtype or self.feat_obj.dtype,
+                    *args, **kwargs)
             for ii, idx in enumerate(self.basinmap):
                 out_arr[ii] = self.feat_obj[idx]
             return out_arr
